@@ -1572,11 +1572,45 @@ def _mutations_in(fn: ast.AST, aliases: set, mod_aliases: set, name: str, modnam
             return True
         return False
 
+    # local names bound (only) to the global itself or to something held by it: c = G / c = G[k] / c = G.get(k) / c = G.setdefault(k, ..)
+    local_alias: set = set()
+    if not top_level:
+        def rooted(e: ast.AST) -> bool:
+            while True:
+                if is_ref(e):
+                    return True
+                if isinstance(e, ast.Subscript):
+                    e = e.value
+                elif isinstance(e, ast.Call) and isinstance(e.func, ast.Attribute) and e.func.attr in ("get", "setdefault", "__getitem__"):
+                    e = e.func.value
+                else:
+                    return False
+        binds: Dict[str, List[ast.AST]] = {}
+        for n in ast.walk(fn):
+            if isinstance(n, (ast.Assign, ast.AnnAssign)) and getattr(n, "value", None) is not None:
+                for t in (n.targets if isinstance(n, ast.Assign) else [n.target]):
+                    if isinstance(t, ast.Name):
+                        binds.setdefault(t.id, []).append(n.value)
+            elif isinstance(n, (ast.For, ast.comprehension)) :
+                for x in ast.walk(n.target):
+                    if isinstance(x, ast.Name):
+                        binds.setdefault(x.id, []).append(ast.Constant(None))
+            elif isinstance(n, ast.AugAssign) and isinstance(n.target, ast.Name):
+                binds.setdefault(n.target.id, []).append(ast.Constant(None))
+        for nm_, vals in binds.items():
+            if nm_ not in declared_global and vals and all(rooted(v) for v in vals):
+                local_alias.add(nm_)
+
+    def is_held(e: ast.AST) -> bool:
+        return isinstance(e, ast.Name) and e.id in local_alias
+
     for n in ast.walk(fn):
         if isinstance(n, (ast.Assign, ast.AugAssign, ast.AnnAssign, ast.Delete)):
             tgts = n.targets if isinstance(n, (ast.Assign, ast.Delete)) else [n.target]
             for t in tgts:
-                if isinstance(t, (ast.Subscript, ast.Attribute)) and is_ref(t.value):
+                if isinstance(t, (ast.Subscript, ast.Attribute)) and is_held(t.value):
+                    out.append({"module": modname, "where": qual, "text": norm(n), "kind": "store", "line": n.lineno})
+                elif isinstance(t, (ast.Subscript, ast.Attribute)) and is_ref(t.value):
                     out.append({"module": modname, "where": qual, "text": norm(n), "kind": "store", "line": n.lineno})
                 elif isinstance(t, ast.Attribute) and is_ref(t):
                     out.append({"module": modname, "where": qual, "text": norm(n), "kind": "rebind", "line": n.lineno})
@@ -1584,7 +1618,7 @@ def _mutations_in(fn: ast.AST, aliases: set, mod_aliases: set, name: str, modnam
                     out.append({"module": modname, "where": qual, "text": norm(n), "kind": "rebind", "line": n.lineno})
                 elif isinstance(t, ast.Name) and isinstance(n, ast.AugAssign) and top_level and t.id in aliases:
                     out.append({"module": modname, "where": qual, "text": norm(n), "kind": "rebind", "line": n.lineno})
-        if isinstance(n, ast.Call) and isinstance(n.func, ast.Attribute) and n.func.attr in _MUTATORS and is_ref(n.func.value):
+        if isinstance(n, ast.Call) and isinstance(n.func, ast.Attribute) and n.func.attr in _MUTATORS and (is_ref(n.func.value) or is_held(n.func.value)):
             out.append({"module": modname, "where": qual, "text": norm(n), "kind": "mutcall", "line": n.lineno})
     return out
 
